@@ -9073,7 +9073,16 @@ bool SoPlexBase<R>::_parseSettingsLine(char* line, const int lineNumber)
 #ifdef WITH_FLOAT
             value = std::stof(paramValueString);
 #else
-            value = std::stod(paramValueString);
+            try
+            {
+               value = std::stod(paramValueString);
+            }
+            catch(const std::out_of_range&)
+            {
+               // std::stod refuses subnormal results; saveSettingsFile() writes them for valid tiny values
+               value = strtod(paramValueString, nullptr);
+            }
+
 #endif
 #endif
 
@@ -9561,7 +9570,16 @@ bool SoPlexBase<R>::parseSettingsString(char* string)
 #ifdef WITH_FLOAT
             value = std::stof(paramValueString);
 #else
-            value = std::stod(paramValueString);
+            try
+            {
+               value = std::stod(paramValueString);
+            }
+            catch(const std::out_of_range&)
+            {
+               // std::stod refuses subnormal results; saveSettingsFile() writes them for valid tiny values
+               value = strtod(paramValueString, nullptr);
+            }
+
 #endif
 #endif
 
